@@ -376,6 +376,14 @@ def run_shape(prop, shape, family, full=True):
 def search(spec):
     prop = spec["property"]
     total = 0
+    if prop == "C06":
+        # the unrestricted orders first (larger trees are affordable without the option combinations)
+        r = search(dict(spec, property="C05", nodes=spec.get("nodes", 4) + 2))
+        if r.get("found"):
+            r["case"]["property"] = "C05"
+            r["note"] = "found with all options at their defaults (filter_=stop=maxlevel=None)"
+            return r
+        total = r["evaluations"]
     for family in spec.get("families", ["NodeMixin", "LightNodeMixin"]):
         for n in range(1, spec.get("nodes", 5) + 1):
             for sh in shapes(n):
